@@ -89,7 +89,7 @@ def make_u(members, spelling, depth, timeout):
     name = spelling + "[" + ",".join(m.name for m in members) + "]"
     T = _T(members, spelling)
     declared = t.get_args(T)
-    order = [next(m for m in members if m.T is a) for a in declared]
+    order = [next(m for m in members if m.T is a or m.T == a) for a in declared]
     try:
         UT = _fresh(unmarshals.unmarshaller, T)
         UM = [_fresh(unmarshals.unmarshaller, m.T) for m in order]
@@ -138,7 +138,7 @@ def make_m(members, spelling, timeout):
     name = spelling + "[" + ",".join(m.name for m in members) + "]"
     T = _T(members, spelling)
     declared = t.get_args(T)
-    order = [next(m for m in members if m.T is a) for a in declared]
+    order = [next(m for m in members if m.T is a or m.T == a) for a in declared]
     try:
         MT = _fresh(marshals.marshaller, T)
         MM = [_fresh(marshals.marshaller, m.T) for m in order]
